@@ -731,7 +731,7 @@ Lemma rejected_changes_nothing s o : snd (step s o) = false -> fst (step s o) = 
 Proof.
   revert s. induction o; intro s;
     try (rewrite step_unframed by exact Logic.I;
-         match goal with |- context [exec s ?o] => destruct (exec s o) end; simpl; [discriminate | reflexivity]).
+         match goal with |- context [exec ?s0 ?o] => destruct (exec s0 o) end; simpl; [discriminate | reflexivity]).
   simpl. match goal with f : frame |- _ => destruct f end; simpl; try reflexivity; try discriminate; apply IHo.
 Qed.
 
@@ -790,4 +790,120 @@ Proof.
   simpl. rewrite Eb2, Es2, B2, !B1, Eb1, Es1. rewrite denom_eqb_refl, !Nat.eqb_refl.
   rewrite (proj2 (Nat.eqb_neq Module from)), (proj2 (Nat.eqb_neq from Module)) by congruence.
   unfold ind. lia.
+Qed.
+
+(** * Reachable states *)
+Definition reachable (s : st) : Prop := exists ops, s = run init ops.
+
+Lemma reachable_inv s : reachable s -> Inv s.
+Proof. intros [ops E]. subst. apply run_inv. exact init_inv. Qed.
+
+Lemma reachable_step s o : reachable s -> reachable (fst (step s o)).
+Proof.
+  intros [ops E]. exists (ops ++ [o]). subst. unfold run. rewrite fold_left_app. reflexivity.
+Qed.
+
+Lemma exec_send_to_bank s caller t x to s' : exec s (SendToBank caller t x to) = Some s' ->
+  exists m0, find_tok s t = Some m0 /\ caller <> Module /\ 0 < x /\ send_to_bank s m0 caller x to = Some s'.
+Proof.
+  simpl. unfold bind, guard. destruct (negb (Nat.eqb caller Module) && (0 <? x)) eqn:G; [|discriminate]. decode.
+  destruct (find_tok s t) as [m0|]; [|discriminate]. intro Hs. exists m0. auto.
+Qed.
+
+Lemma send_to_bank_credits_measured s caller t x to s' :
+  reachable s -> exec s (SendToBank caller t x to) = Some s' ->
+  exists m0, In m0 (reg s) /\ m_tok m0 = t /\
+    let d := m_den m0 in
+    let got := bank s' to d - bank s to d in
+    0 < got <= x /\
+    (m_coin m0 = true -> esup s t - esup s' t = got /\ bank s Module d - bank s' Module d = got) /\
+    (m_coin m0 = false -> supply s' d - supply s d = got /\ ebal s' t Module - ebal s t Module = got) /\
+    (forall m, In m (reg s) -> slack s' m = slack s m).
+Proof.
+  intros R H0. apply exec_send_to_bank in H0 as [m0 [Ft [Hc [Hx H]]]].
+  apply find_tok_some in Ft as [Hm0 Et]. exists m0. split; [exact Hm0|]. split; [exact Et|].
+  pose proof (send_to_bank_amounts s m0 caller x to s' (reachable_inv _ R) Hm0 Hc H) as A.
+  pose proof (send_to_bank_good s m0 caller x to s' (reachable_inv _ R) Hm0 Hc H) as [_ G].
+  simpl in A. rewrite Et in A. simpl. destruct A as [A1 [A2 A3]]. auto.
+Qed.
+
+Lemma to_evm_coin_born_credits_amount s o from d x to s' :
+  (o = ConvertCoinToEvm from d x to \/ o = SendToEvm from d x to) ->
+  reachable s -> exec s o = Some s' ->
+  forall m0, find_den s d = Some m0 -> m_coin m0 = true ->
+    let t := m_tok m0 in
+    0 <= x /\ ebal s' t to - ebal s t to = x /\ esup s' t - esup s t = x /\
+    bank s' Module d - bank s Module d = x /\ bank s from d - bank s' from d = x /\
+    (forall m, In m (reg s) -> slack s' m = slack s m).
+Proof.
+  intros Ho R H m0 Fd Hc. pose proof (reachable_inv _ R) as I.
+  destruct (find_den_some _ _ _ Fd) as [Hm0 Ed].
+  assert (K : from <> Module /\ coin_to_evm_born_coin s m0 from x to = Some s').
+  { destruct Ho; subst o; simpl in H; unfold bind, guard in H.
+    - destruct (negb (Nat.eqb from Module)) eqn:G; [|discriminate]. decode. rewrite Fd, Hc in H. auto.
+    - destruct (negb (Nat.eqb from Module) && (0 <? x)) eqn:G; [|discriminate]. decode. rewrite Fd, Hc in H. auto. }
+  destruct K as [Hf K].
+  pose proof (coin_to_evm_amounts s m0 from x to s' Hf K) as A. simpl in A. rewrite Ed in A.
+  pose proof (coin_to_evm_born_coin_good s m0 from x to s' I Hm0 Hc Hf K) as [_ G].
+  simpl. destruct A as [A1 [A2 [A3 [A4 A5]]]]. auto 10.
+Qed.
+
+Lemma to_evm_erc20_born_margin s o from d x to s' :
+  (o = ConvertCoinToEvm from d x to \/ o = SendToEvm from d x to) ->
+  reachable s -> exec s o = Some s' ->
+  forall m0, find_den s d = Some m0 -> m_coin m0 = false ->
+    exists b, tk s (m_tok m0) = Some b /\ 0 <= x /\
+      forall m, In m (reg s) -> slack s' m = slack s m + ind (Nat.eqb (m_tok m) (m_tok m0)) (module_gain b x to).
+Proof.
+  intros Ho R H m0 Fd Hc. pose proof (reachable_inv _ R) as I.
+  destruct (find_den_some _ _ _ Fd) as [Hm0 Ed].
+  destruct Ho; subst o; simpl in H; unfold bind, guard in H.
+  - destruct (negb (Nat.eqb from Module)) eqn:G; [|discriminate]. rewrite Fd, Hc in H.
+    apply (convert_born_erc20_good s m0 from x to s' I Hm0 Hc H).
+  - destruct (negb (Nat.eqb from Module) && (0 <? x)) eqn:G; [|discriminate]. rewrite Fd, Hc in H.
+    apply (send_to_evm_born_erc20_good s m0 from x to s' I Hm0 Hc H).
+Qed.
+
+(** * Non-vacuity: a concrete history with both births, a fee-on-transfer token, both directions *)
+Definition fee10 (sink : acct) : tbeh :=
+  {| tb_fee := fun x => x * 10 / 100; tb_sink := sink; tb_heavy := false; tb_false := false; tb_burn := false; tb_pos := true |}.
+
+Definition ex_ops : list op :=
+  [ SetMeta (DCoin 0); Fund 3 (DCoin 0) 1000;
+    CreateFromCoin (DCoin 0);                           (* token 0, coin-born *)
+    ConvertCoinToEvm 3 (DCoin 0) 300 1;
+    SendToBank 1 0 70 4;
+    Framed FInnerRevert (SendToBank 1 0 50 4);
+    Deploy 1 (fee10 (tok_addr 1)) 1000;                 (* token 1, fee on transfer *)
+    CreateFromErc20 1;
+    SendToBank 1 1 100 3;                               (* module measures +90, mints 90 *)
+    ConvertCoinToEvm 3 (DErc 1) 40 2;                   (* burns 40, releases 40 (recipient gets 36) *)
+    CreateFromCoin (DCoin 0); CreateFromErc20 1; CreateFromErc20 0 ]%nat.
+
+Example ex_ops_outcomes :
+  map (fun o => snd o) (snd (fold_left (fun acc o => let r := step (fst acc) o in (fst r, snd acc ++ [(o, snd r)])) ex_ops (init, [])))
+  = [true; true; true; true; true; true; true; true; true; true; false; false; false].
+Proof. vm_compute. reflexivity. Qed.
+
+Example ex_ops_view :
+  view (run init ex_ops) =
+  [ {| mo_map := {| m_tok := 0; m_den := DCoin 0; m_coin := true |}; mo_esup := 230; mo_emod := 0; mo_bsup := 1000; mo_bmod := 230 |};
+    {| mo_map := {| m_tok := 1; m_den := DErc 1; m_coin := false |}; mo_esup := 1000; mo_emod := 50; mo_bsup := 50; mo_bmod := 0 |} ]%nat.
+Proof. vm_compute. reflexivity. Qed.
+
+Example backing_invariant_nonvacuous :
+  exists ops, length (reg (run init ops)) = 2%nat /\ P (views init ops) /\
+    exists o, In o (view (run init ops)) /\ m_coin (mo_map o) = false /\ 0 < mo_bsup o.
+Proof.
+  exists ex_ops. split; [vm_compute; reflexivity|]. split; [apply backing_invariant|].
+  rewrite ex_ops_view. eexists. split; [right; left; reflexivity|]. simpl. split; [reflexivity|lia].
+Qed.
+
+Example send_to_bank_credits_measured_nonvacuous :
+  exists s caller t x to s', reachable s /\ exec s (SendToBank caller t x to) = Some s' /\
+    bank s' to (DErc t) - bank s to (DErc t) = 90 /\ x = 100.
+Proof.
+  exists (run init (firstn 8 ex_ops)), 1%nat, 1%nat, 100, 3%nat.
+  eexists. split; [exists (firstn 8 ex_ops); reflexivity|]. split; [vm_compute; reflexivity|].
+  vm_compute. split; reflexivity.
 Qed.
